@@ -6,7 +6,6 @@ package props
 
 import (
 	"fmt"
-	"net"
 	"testing"
 	"time"
 
@@ -109,7 +108,7 @@ func runC07R(c C07RCase, info *kit.Info) *kit.Finding {
 			continue
 		}
 		salt := kit.DetBytes(c.Seed*1_000_003+int64(op.Label), key.SaltSize())
-		conn, err := net.DialTimeout("tcp", addrs[op.Svc], 3*time.Second)
+		conn, err := kit.DialTCP(addrs[op.Svc], 3*time.Second)
 		if err != nil {
 			if kit.EnvNetError(err) {
 				info.Skipped = "host out of ports: " + err.Error()
@@ -120,7 +119,7 @@ func runC07R(c C07RCase, info *kit.Info) *kit.Finding {
 		local := conn.LocalAddr().String()
 		from := len(s.ex.Events)
 		conn.Write(kit.EncodeStream(key, salt, append(kit.SocksAddr("127.0.0.1", 9, false), "r"...), nil))
-		conn.(*net.TCPConn).CloseWrite()
+		conn.CloseWrite()
 		idx, ok, err := s.ex.WaitEvent(from, 5*time.Second, func(e kit.ExecEvent) bool { return e.Kind == "tcp_closed" && e.Remote == local })
 		conn.Close()
 		if err != nil {
